@@ -9,6 +9,7 @@ import (
 	"context"
 	"fmt"
 	"strings"
+	"time"
 
 	"verif/engine/dfs"
 	"verif/engine/evid"
@@ -20,6 +21,7 @@ import (
 	wnet "github.com/whatap/golib/net"
 	"github.com/whatap/golib/util/compressutil"
 	"github.com/whatap/golib/verifshim/sched"
+	"github.com/whatap/golib/verifshim/vtime"
 )
 
 // recorder is the TcpClient handed to the sender.
@@ -28,6 +30,7 @@ type recorder struct {
 	handed   []*pack.ZipPack // the very objects handed over
 	snapshot [][]byte        // serialisation at hand-over
 	zipMinAt []int           // compression threshold in force at hand-over (supplied by the harness)
+	at       []int64         // (virtual) time of each hand-over
 	curMin   func() int
 }
 
@@ -48,6 +51,7 @@ func (r *recorder) SendFlush(p pack.Pack, flush bool, opts ...wnet.TcpClientOpti
 		m = r.curMin()
 	}
 	r.zipMinAt = append(r.zipMinAt, m)
+	r.at = append(r.at, vtime.Now().UnixMilli())
 	return nil
 }
 
@@ -328,10 +332,15 @@ type cscen struct {
 	retain    bool
 	stopEarly bool // cancel while producers may still be adding
 	qsize     int
+	// newWait > 0: a configuration thread applies a new waiting time (ApplyConfig, as the configuration
+	// observer does) while the sender is running; the producers start 1 s later, and the stopper two old
+	// waiting times after that. The waiting time in force for the idle flush is then the
+	// new one: the batch must reach the client within two new waiting times of its last record.
+	newWait int64
 }
 
 func (s cscen) String() string {
-	return fmt.Sprintf("producers=%v settings{maxBuf:%d maxWait:%d zipMin:%d} queue=%d retain=%v stopWhileProducing=%v", s.producers, s.st.maxBuf, s.st.maxWait, s.st.zipMin, s.qsize, s.retain, s.stopEarly)
+	return fmt.Sprintf("producers=%v settings{maxBuf:%d maxWait:%d zipMin:%d} queue=%d retain=%v stopWhileProducing=%v reconfiguredWait=%d", s.producers, s.st.maxBuf, s.st.maxWait, s.st.zipMin, s.qsize, s.retain, s.stopEarly, s.newWait)
 }
 
 func (s cscen) scenario() dfs.Scenario {
@@ -346,11 +355,22 @@ func (s cscen) scenario() dfs.Scenario {
 		mustEmit := 0
 		left := len(s.producers)
 		id := 0
+		lastAdd := int64(0)
+		if s.newWait > 0 {
+			x.Spawn("config", func() {
+				x.Yield(sched.Op{Kind: "op:config"})
+				z.ApplyConfig(mapConf{"max_wait_time": fmt.Sprint(s.newWait), "max_buffer_size": fmt.Sprint(s.st.maxBuf), "logsink_zip_min_size": fmt.Sprint(s.st.zipMin), "logsink_queue_size": fmt.Sprint(s.qsize)})
+			})
+		}
 		for pi, sizes := range s.producers {
 			pi, sizes := pi, sizes
 			x.Spawn(fmt.Sprintf("P%d", pi), func() {
+				if s.newWait > 0 {
+					vtime.Sleep(time.Second)
+				}
 				for k, sz := range sizes {
 					x.Yield(sched.Op{Kind: "op:add"})
+					lastAdd = vtime.Now().UnixMilli()
 					r := mkRecord(pi*100+k, sz, 1700000000000+int64(id)*10)
 					id++
 					z.Add(r)
@@ -366,7 +386,9 @@ func (s cscen) scenario() dfs.Scenario {
 		}
 		run := x.Spawn("run", func() { z.VerifRun() })
 		x.Spawn("stopper", func() {
-			if s.stopEarly {
+			if s.newWait > 0 {
+				vtime.Sleep(time.Second + 2*time.Duration(s.st.maxWait)*time.Millisecond)
+			} else if s.stopEarly {
 				x.Yield(sched.Op{Kind: "stopper-any"})
 			} else {
 				x.Yield(sched.Op{Kind: "stopper-wait", Enabled: func() bool {
@@ -399,8 +421,26 @@ func (s cscen) scenario() dfs.Scenario {
 			if msg != "" {
 				return msg
 			}
-			if v := judge(rc, acc, !s.stopEarly); v != "" {
+			// choosing a sleeping thread before its time models the other threads being held up for that
+			// long: deadlines (and "everything was flushed before the timed stop") are judged in the
+			// executions without such a jump only
+			timeJumps := 0
+			for _, p := range x.Points {
+				if p.Kind == sched.PointSched && p.NEnabled > 0 && p.Chosen >= p.NEnabled {
+					timeJumps++
+				}
+			}
+			wantAll := !s.stopEarly
+			if s.newWait > 0 {
+				wantAll = timeJumps == 0
+			}
+			if v := judge(rc, acc, wantAll); v != "" {
 				return v
+			}
+			if s.newWait > 0 && len(rc.at) > 0 && timeJumps == 0 {
+				if last := rc.at[len(rc.at)-1]; last > lastAdd+2*s.newWait+50 {
+					return fmt.Sprintf("deadline: the waiting time was reconfigured from %d to %d ms before any record arrived, the last record was added at +%d ms and nothing followed, but the batch reached the client only at +%d ms (idle flush still using the old waiting time)", s.st.maxWait, s.newWait, lastAdd-vtime.Epoch.UnixMilli(), last-vtime.Epoch.UnixMilli())
+				}
 			}
 			emitted := len(acc) - len(buffered(acc, rc))
 			if emitted < mustEmit {
@@ -466,6 +506,10 @@ func mergeOrder(rc *recorder, perProd [][]*pack.LogSinkPack) ([]*pack.LogSinkPac
 
 func cscens(thorough bool) []cscen {
 	var out []cscen
+	// reconfiguration of the waiting time while the sender runs (idle flush must follow it)
+	for _, prods := range [][][]int{{{10}}, {{10, 60}}} {
+		out = append(out, cscen{producers: prods, st: setting{1 << 16, 1200, 100}, qsize: 1000, newWait: 150})
+	}
 	for _, st := range []setting{{64, 1000, 0}, {256, 1000, 100}, {64, 1, 40}} {
 		for _, retain := range []bool{false, true} {
 			for _, prods := range [][][]int{{{10}}, {{10, 60}}, {{10}, {60}}, {{10, 200}, {60}}} {
@@ -474,7 +518,7 @@ func cscens(thorough bool) []cscen {
 						if !thorough && (q == 1 && early || len(prods) == 2 && len(prods[0]) == 2 && retain) {
 							continue
 						}
-						out = append(out, cscen{prods, st, retain, early, q})
+						out = append(out, cscen{producers: prods, st: st, retain: retain, stopEarly: early, qsize: q})
 					}
 				}
 			}
